@@ -9,19 +9,19 @@ namespace jv {
 
 struct PairsRun {
     RunEnv& env; W w; Rep& R; int view; const Plan& plan;
-    static const size_t NP = 6, NR = 5;
+    static const size_t NP = 6; size_t NR = 5;   // NR: length of the two record arrays (plan cfg "nr": 5 normally, 20 / 40 / 70 in the long-list runs)
     std::vector<Buf> g1, g2; std::vector<Buf> prep_src;       // prep_src: copy of the G2 point the prepared entry was computed from
     // the prepared points live in ONE table, entry after entry, each as large as the caller of this view declares the type (the C mirror
     // struct through the C API): what a routine writes beyond its entry lands in the next entry or in the canary behind the table
     Buf preptab; size_t prep_sz = 0; std::vector<uint8_t*> prep; static const size_t PREP_CANARY = 1024;
     std::vector<bool> prep_set;
-    Buf arec, prec; int a_g1[NR], a_g2[NR], p_g1[NR], p_pr[NR];      // -1 = record never set
+    Buf arec, prec; std::vector<int> a_g1, a_g2, p_g1, p_pr;      // -1 = record never set
     PairsRun(RunEnv& e, const Plan& p) : env(e), w(e), R(*e.rep), view(e.view), plan(p) {
+        NR = (size_t) std::max<int64_t>(1, std::min<int64_t>(p.c("nr", 5), 80)); a_g1.assign(NR, -1); a_g2.assign(NR, -1); p_g1.assign(NR, -1); p_pr.assign(NR, -1);
         for (size_t i = 0; i < NP; i++) { g1.emplace_back(R.sz(JV_SZ_G1A)); g2.emplace_back(R.sz(JV_SZ_G2A)); prep_src.emplace_back(R.sz(JV_SZ_G2A)); prep_set.push_back(false);
             R.jv_const_get(JV_EK_G1A, i % 2, g1[i]); R.jv_const_get(JV_EK_G2A, (i + 1) % 2, g2[i]); }
         prep_sz = R.jv_g2p_size(view); preptab.alloc(NP * prep_sz + (R.info.sanitized ? 0 : PREP_CANARY), 0xEE); for (size_t i = 0; i < NP; i++) prep.push_back(preptab.p + i * prep_sz);
         arec.alloc(NR * R.jv_pair_size(view, 0), 0xEE); prec.alloc(NR * R.jv_pair_size(view, 1), 0xEE); R.jv_pair_init(view, arec, NR, 0); R.jv_pair_init(view, prec, NR, 1);   // exact-size arrays of the record type the caller of this view declares
-        for (size_t i = 0; i < NR; i++) a_g1[i] = a_g2[i] = p_g1[i] = p_pr[i] = -1;
     }
     std::string gc(const GTv& v) { return w.ct(v); }
     GTv single(const void* p, const void* q) { GTv o; env.lib_calls++; R.jv_pairing(view, o.b, p, q); return o; }
@@ -100,6 +100,12 @@ struct PairsScenario : Scenario {
         for (int i = 0; i < 3; i++) { p.ops.push_back({"P1", {i, 2}, {rh()}}); p.ops.push_back({"P2", {i, 2}, {rh()}}); }
         p.ops.push_back({"PREP", {0, 0}, {}}); p.ops.push_back({"PREP", {1, 1}, {}});
         for (int i = 0; i < 3; i++) { p.ops.push_back({"AREC", {i, (int64_t) r.below(6), (int64_t) r.below(6)}, {}}); p.ops.push_back({"PREC", {i, (int64_t) r.below(6), (int64_t) r.below(2)}, {}}); }
+        // long lists: one run in ten has record arrays of 20, 40 or 70 entries, all set, and products over most of them (batching, bit
+        // masks and per-list cursors in the product routine have their boundaries at 16, 32 and 64 pairs)
+        int64_t nr = 5; if (r.chance(1, 16)) { int64_t ch[] = {20, 40, 70}; nr = ch[r.below(3)]; p.cfg["nr"] = nr;
+            for (int64_t i = 3; i < nr; i++) { p.ops.push_back({"AREC", {i, (int64_t) r.below(6), (int64_t) r.below(6)}, {}}); p.ops.push_back({"PREC", {i, (int64_t) r.below(6), (int64_t) r.below(2)}, {}}); }
+            for (int j = 0; j < 2; j++) p.ops.push_back({"PROD", {(int64_t) r.below(3), j == 1 ? (int64_t) r.below(4) : nr - (int64_t) r.below(4), (int64_t) r.below(3), j == 0 ? (int64_t) r.below(4) : nr - (int64_t) r.below(4)}, {}});
+            return p; }
         int n = r.range(4, 22);
         for (int i = 0; i < n; i++) {
             int k = r.range(0, 11);
